@@ -9,6 +9,7 @@ other live object unchanged; an in-range write succeeds with exactly the request
 from __future__ import annotations
 
 import io
+import math
 
 import bitarray as _ba
 
@@ -52,7 +53,9 @@ TYPED = {
     'se': ((None,), [0, 1, -5, 100, -1]), 'sie': ((None,), [0, 1, -5, 100, -1]),
     'p3binary': ((8, None), _SMALLF), 'p4binary': ((8, None), _SMALLF), 'e4m3mxfp': ((8, None), _SMALLF), 'e5m2mxfp': ((8, None), _SMALLF),
     'e3m2mxfp': ((6, None), _SMALLF), 'e2m3mxfp': ((6, None), _SMALLF), 'e2m1mxfp': ((4, None), _SMALLF),
-    'e8m0mxfp': ((8, None), [1.0, 2.0, 0.5, 4.0, 3.0, 0.3, 0.0, -1.0, float('nan')]), 'mxint': ((8, None), _SMALLF),
+    # (e8m0 holds exact powers of two only: the neighbours of a power of two, one unit in the last place away, are not)
+    'e8m0mxfp': ((8, None), [1.0, 2.0, 0.5, 4.0, 3.0, 0.3, 0.0, -1.0, float('nan'), math.nextafter(16.0, 17.0), math.nextafter(1024.0, 0.0),
+                             math.nextafter(2.0 ** -20, 1.0), 2.0 ** 100 * (1 + 2.0 ** -52), math.nextafter(2.0 ** -100, 0.0), 2.0 ** 40, 2.0 ** -60]), 'mxint': ((8, None), _SMALLF),
 }
 TYPED_LENGTHS = [None, 0, 1, 2, 4, 6, 7, 8, 12, 16, 24, 32, 48, 64, 65, 128, -1, -16]
 TYPED_ROUTES = ('ctor_kw', 'ctor_named', 'token', 'append', 'prepend', 'pack', 'pack_kw', 'build', 'prop_named', 'array_new', 'insert', 'iadd')
@@ -64,7 +67,6 @@ def typed_value_ok(name, v):
     if name in ('ue', 'uie'):
         return v >= 0
     if name == 'e8m0mxfp':
-        import math
         return v != v or (v > 0 and math.frexp(v)[0] == 0.5)
     if v != v:
         return name not in ('e3m2mxfp', 'e2m3mxfp', 'e2m1mxfp', 'mxint')       # formats without a NaN code refuse NaN
@@ -384,6 +386,15 @@ class EReject(Engine):
             elif how == 'pack':
                 if ev.get('form') == 'kw':
                     st, r = call(B.pack, f'{name}:w', v, w=w)
+                elif ev.get('form') == 'colon' and expect:
+                    # the format given as a list of strings, then its first string on its own: each call stands for itself
+                    st, r = call(B.pack, [f'{name}:{w}', 'uint:4'], v, 1)
+                    if st != 'ok' or len(r) != w + 4:
+                        incs.append(self.inc('write|pack-list|in-range-but-raised-or-wrong-length', event=ev, outcome=kernel.exc_name(r) if st != 'ok' else len(r)))
+                    st, r = call(B.pack, f'{name}:{w}', v)
+                    st2, r2 = call(B.pack, f'{name}:{w}', v, 1)
+                    if st2 == 'ok':
+                        incs.append(self.inc('write|pack-after-list|one-value-too-many-but-accepted', event=ev, got_len=len(r2)))
                 else:
                     st, r = call(B.pack, f'{name}:{w}', v)
                 new_obj, want_len = (r if st == 'ok' else None), w
